@@ -132,7 +132,16 @@ def _shrink_one(spec_name, viol, budget_s):
     ok, norm = test(viol["values"])
     if not ok:
         return {"reproduced": False, "viol": viol}
-    small, info = shrink(norm, test, budget_s=budget_s)
+    hints = None
+    if hasattr(spec, "shrink_hints"):
+        def hints(values):
+            ch = Choices(replay=values)
+            try:
+                spec.case(ch)
+            except KernelStuck:
+                return []
+            return spec.shrink_hints([l for (l, _, _) in ch.log], ch.values())
+    small, info = shrink(norm, test, budget_s=budget_s, hints=hints)
     out, ch = run_case(spec, values=small)
     v = out.violations[0]
     return {"reproduced": True, "viol": viol, "values": ch.values(), "labels": [(l, n) for (l, n, _) in ch.log],
@@ -318,6 +327,7 @@ def run_check(spec, tier, base_seed, nproc=None, n_override=None):
                                   "mismatches over %d seeds" % (selftest["inprocess_mismatch"],
                                                                 selftest["fresh_mismatch"], len(idxs)))
 
+    selftest_wall = time.time() - t0 - batch_wall
     # ---- minimise one representative per violation signature, write + verify replay files
     known = load_known(prop)
     by_sig = collections.OrderedDict()
@@ -391,6 +401,8 @@ def run_check(spec, tier, base_seed, nproc=None, n_override=None):
         "known_findings_hit": [k.get("id") for k, _ in known_hits],
         "processes": nproc,
         "batch_wall_s": round(batch_wall, 2),
+        "selftest_wall_s": round(selftest_wall, 2),
+        "minimise_and_replay_wall_s": round(wall - batch_wall - selftest_wall, 2),
     }
     coverage = {k: v for k, v in coverage.items() if v is not None}
     evidence = {
@@ -404,8 +416,10 @@ def run_check(spec, tier, base_seed, nproc=None, n_override=None):
             json.dump(evidence, f, indent=1, default=str)
 
     # ---- report
-    print("  %d cases, %d simulated runs, %d distinct fingerprints, %.0f s simulated, %.1f s wall"
-          % (merged["n"], stats.get("runs", 0), len(merged["fps"]), merged["sim_time"], wall))
+    print("  %d cases, %d simulated runs, %d distinct fingerprints, %.0f s simulated, %.1f s wall (batch %.1f, "
+          "self-test %.1f, minimise+replay %.1f)" % (merged["n"], stats.get("runs", 0), len(merged["fps"]),
+                                                     merged["sim_time"], wall, batch_wall, selftest_wall,
+                                                     wall - batch_wall - selftest_wall))
     print("  faults fired: %s" % coverage["fault_counts_fired"])
     print("  determinism self-test: %s" % selftest)
     for k, rep in known_hits:
